@@ -663,7 +663,7 @@ def r07_8(ctx):
                                         f"({want_v.hex()}, {want_rest.hex()})", func=m, trace=p.trace(8))
 
 
-@rule("R07.5", ["C07"], "T-FUN", floor=16)
+@rule("R07.5", ["C07", "C09", "C16"], "T-FUN", floor=16)
 def r07_5(ctx):
     """Declared order and form equivalence: serialize_dict emits fields in schema order whatever mix or order of
     positional and keyword arguments is used; deserialize_dict consumes in schema order, each field from the
@@ -695,6 +695,18 @@ def r07_5(ctx):
             ctx.require(ps[0].terminal == "return" and bytes(got) == want, f"serialize:{npos}:{'-'.join(perm)}",
                         f"serialize_dict(args={args}, kwargs order {perm}) = {bytes(got).hex() if ps[0].terminal == 'return' else ps[0].value!r}, "
                         f"declared order gives {want.hex()}", func=ser)
+    # the schema decides the wire type: a value that is already a typed integer of another width (an 8-bit bitmap member
+    # handed to a 16-bit field) is converted to the field's type, not serialised with its own width
+    from ..px import ZInt
+
+    typed = {"a": ZInt(0x11, 8, False), "b": ZInt(0x33, 8, False), "c": ZInt(0x44, 8, False)}
+    ps = px.explore(ser, lambda: (None, {"args": (), "kwargs": dict(typed), "schema": dict(schema)}))
+    if len(ps) != 1:
+        raise AnalysisError("serialize_dict: several paths on typed concrete input")
+    got = ps[0].value
+    ctx.require(ps[0].terminal == "return" and isinstance(got, (bytes, bytearray)) and bytes(got) == bytes([0x11, 0x33, 0x00, 0x44]), "serialize:typed-value-of-other-width",
+                f"serialize_dict with an 8-bit typed value for the 16-bit field b = {bytes(got).hex() if isinstance(got, (bytes, bytearray)) else got!r}, the schema's "
+                "type gives 11330044 (e.g. the bitmap8 default CONFIG_APPLICATION_ZDO_FLAGS written through setConfigurationValue(value: uint16))", func=ser)
     for tail in (b"", b"\x99\x98"):
         ps = px.explore(des, lambda: (None, {"data": want + tail, "schema": dict(schema)}))
         r = ps[0].value
